@@ -28,6 +28,8 @@ type Prog struct {
 	// all source functions (incl. methods and anonymous functions) of the tree's packages
 	Funcs []*ssa.Function
 	byKey map[string]*ssa.Function
+
+	globalNN map[*ssa.Global]bool
 }
 
 // LoadProg loads dir's ./... with default build tags (exactly what `go build ./...` compiles).
@@ -109,6 +111,22 @@ func (p *Prog) collectFuncs() {
 			continue // wrappers, thunks, bound methods, generic instances (the generic origin body is analysed)
 		}
 		add(f)
+	}
+	// methods of generic named types are not in any runtime method set: add their generic bodies
+	for _, sp := range p.SPkgs {
+		for _, m := range sp.Members {
+			t, ok := m.(*ssa.Type)
+			if !ok {
+				continue
+			}
+			n, ok := t.Type().(*types.Named)
+			if !ok || n.TypeParams() == nil || n.TypeParams().Len() == 0 {
+				continue
+			}
+			for i := 0; i < n.NumMethods(); i++ {
+				add(p.SSA.FuncValue(n.Method(i)))
+			}
+		}
 	}
 	sort.Slice(p.Funcs, func(i, j int) bool { return p.FuncKey(p.Funcs[i]) < p.FuncKey(p.Funcs[j]) })
 	for _, f := range p.Funcs {
